@@ -9,12 +9,12 @@
      plugins/dhcp4/local/provider.go      reserveIP (renew / expiry take-over / conflict), ReleaseLease
      internal/pppoe/session.go            startNCP (allocate / reserve / 100.64.0.1 fall-back), onIPCPUp,
                                           terminate; pkg/ppp/ipcp.go ProcessConfReq (address option)
-     internal/ipoe                        the release sequences of handleRelease / cleanupSessions (IR) and
-                                          handleSubscriberTerminate (IT)
+     internal/ipoe                        the release sequences of handleRelease (IR), handleDHCPv6Release (IL),
+                                          handleSubscriberTerminate (IT) and the reaper of cleanupSessions (IE)
    Definitions only; proofs are in Proofs.v.
 
    Variants are records of defect flags: [Repaired] has none and is the behaviour for which the property theorems
-   are proved; [Head] is what /repo HEAD implements (four findings still open); [Defective] has every defect ever
+   are proved; [Head] is what /repo HEAD implements (five findings still open); [Defective] has every defect ever
    recorded (the tree before any fix) and is kept for the historical refutation witnesses only.
    Choices Go leaves open (which free address Allocate returns, Go map iteration order in the containment
    walks) are modelled as a list of candidate successor states; the driver follows the candidate that the
